@@ -14,7 +14,8 @@ from .. import core, x12ref, envmodel
 PID = 'C20'
 RULE = ('Hypothesis-generated interchanges (1..2 interchanges x 0..3 groups x 0..3 sets x 0..7 body segments incl. HL trees and '
         'composites; drawn delimiter triple; input layout none/LF/CRLF; trailing empty elements) in which IEA01/GE01/SE01 and HL01 '
-        'are independently right or wrong (off by one, non-numeric, empty). Options drawn from {-e} x {-f} x {stdout, -o file, -i}. '
+        'are independently right or wrong (off by one, non-numeric, empty); a quarter of the files also carry trailer-id defects that -f must '
+        'leave alone, a third carry a long filler segment that puts a terminator on a read-buffer boundary 106+8192k(+-2). Options drawn from {-e} x {-f} x {stdout, -o file, -i}. '
         'Oracle: reference tokenisation of output = input segments (trailing empties trimmed), exact text layout (one segment per '
         'line with -e, single trailing LF without), norm(norm(x)) = norm(x) byte for byte, and with -f the output passes the '
         'independent envelope audit, pyx12 reader pops no count error, and differs from the input only in the wrong count fields. '
@@ -136,7 +137,7 @@ def check_case(case):
         elif res2 != res:
             out.fail('not-idempotent', 'second pass changed the text')
         # 4. repaired envelope
-        if fix:
+        if fix and not meta.get('others'):
             flat = [(sid, [d['sub'].join(e) if sid != 'ISA' else e[0] for e in els]) for sid, els in g]
             aud = [x for x in envmodel.audit(flat) if x[1] in ('021', '5', '4', 'HL1')]
             if aud:
@@ -215,6 +216,17 @@ def strategy(tier):
                 return draw(st.sampled_from([str(true + 1), str(true + 7), 'X', '', '0' if true != 0 else '1']))
             return str(true)
 
+        others = []
+        allow_other = draw(st.integers(0, 3)) == 0
+
+        def other(good, bad, what):
+            # a defect that is not a count: -f must leave the segment's other values alone
+            if allow_other and draw(st.integers(0, 3)) == 0:
+                others.append(what)
+                return bad
+            return good
+
+        align = draw(st.integers(0, 2)) == 0
         segs = []
         for ii in range(draw(st.sampled_from([1, 1, 2]))):
             ictl = '%09d' % (ii + 1)
@@ -230,6 +242,16 @@ def strategy(tier):
                     hl = 0
                     for b in range(nb):
                         k = draw(st.sampled_from(['HL', 'HL', 'REF', 'SV1', 'NM1']))
+                        if align and b == 0 and 'aligned' not in classes:
+                            cur = sum(len(x) + len(term) + len(lay) for x in segs)
+                            nxt = 'NTE' + ele + 'ADD' + ele
+                            target = 106 + 8192 * draw(st.integers(1, 2)) + draw(st.sampled_from([-2, -1, 0, 1]))
+                            need = target - cur - len(nxt) - 1
+                            while need < 1:
+                                need += 8192
+                            segs.append(nxt + 'p' * need)
+                            classes.add('aligned')
+                            continue
                         if k == 'HL':
                             hl += 1
                             parent = '' if hl == 1 else str(draw(st.integers(max(1, hl - 2), hl - 1)))
@@ -244,13 +266,15 @@ def strategy(tier):
                             segs.append(s)
                         else:
                             segs.append(ele.join(['NM1', '85', '2', draw(vals), '', '', '', '', 'XX', draw(vals)]))
-                    segs.append(ele.join(['SE', cnt(nb + 2, 'SE01'), sctl]))
-                segs.append(ele.join(['GE', cnt(nst, 'GE01'), str(gi + 1)]))
-            segs.append(ele.join(['IEA', cnt(ngs, 'IEA01'), ictl]))
+                    segs.append(ele.join(['SE', cnt(nb + 2, 'SE01'), other(sctl, '9999', 'SE02')]))
+                segs.append(ele.join(['GE', cnt(nst, 'GE01'), other(str(gi + 1), '77', 'GE02')]))
+            segs.append(ele.join(['IEA', cnt(ngs, 'IEA01'), other(ictl, '000000099', 'IEA02')]))
         text = ''.join(s + term + lay for s in segs)
         fix = draw(st.booleans()) or bool(defects) and draw(st.booleans())
+        if others:
+            classes.add('non-count-defect')
         return {'text': text, 'eol': draw(st.booleans()), 'fix': fix, 'mode': draw(st.sampled_from(['stdout', 'outfile', 'inplace'])),
-                'meta': {'classes': sorted(classes), 'defects': defects}}
+                'meta': {'classes': sorted(classes), 'defects': defects, 'others': others}}
 
     return gen()
 
